@@ -39,6 +39,7 @@ pub fn prop() -> Prop {
         independent: &["harness Lagrange interpolation over the public Field trait"],
         ref_sample: |_| 0,
         required_probes: &["coalition_size_1", "coalition_size_t_minus_1", "padded_phantoms", "lowered_threshold", "threshold_none", "signer_refused", "aggregate_refused", "reconstruct_refused", "degree_checked"],
+        prepare: None,
     }
 }
 
